@@ -188,6 +188,9 @@ pub struct RawGenOpts {
     /// two purposes of one layer may share a purpose (datatype) number, as pin and label do in some
     /// technologies; only where purposes are compared by number
     pub shared_purpose_numbers: bool,
+    /// now and then an L-shaped wire with a small named contact diagonally off its outer corner,
+    /// closer to the bend than the wire is wide but clear of it (labels must not leak across)
+    pub contact_near_bend: bool,
 }
 fn maybe_close(src: &mut Src, o: &RawGenOpts, g: RGeom) -> RGeom {
     match g {
@@ -399,6 +402,22 @@ pub fn gen_rawlib(src: &mut Src, o: &RawGenOpts) -> RLib {
                 }
                 let _ = kind;
                 shapes.push(RShape { layer, purpose, geom, net });
+            }
+            if o.contact_near_bend && src.prob(1, 6) {
+                if let Some(layer) = (0..layers.len()).find(|l| layers[*l].label_num().is_some()) {
+                    let cand: Vec<usize> = (0..layers[layer].purposes.len()).filter(|i| layers[layer].purposes[*i].1 != RPurpose::Label).collect();
+                    let purpose = cand[src.index(cand.len())];
+                    let og = window_origin(5);
+                    let w = 2 * src.i64_in(2, 4); // 4, 6, 8
+                    let j = (og.0 + 30, og.1 + 30);
+                    // which way the wire turns decides where the outer corner is
+                    let (sx, sy) = (if src.bool() { 1 } else { -1 }, if src.bool() { 1 } else { -1 });
+                    let wire = vec![(j.0 - sx * 24, j.1), j, (j.0, j.1 - sy * 24)];
+                    let (a, b) = (w / 2 + 1, w - 1);
+                    let contact = ((j.0 + sx * a, j.1 + sy * a), (j.0 + sx * b, j.1 + sy * b));
+                    shapes.push(RShape { layer, purpose, geom: RGeom::Path(wire, w as usize), net: if src.bool() { Some("wire_l".to_string()) } else { None } });
+                    shapes.push(RShape { layer, purpose, geom: RGeom::Rect(contact.0, contact.1), net: Some("ct".to_string()) });
+                }
             }
             // instances of earlier cells that have a layout
             let targets: Vec<usize> = (0..ci).filter(|i| cells[*i].has_layout).collect();
